@@ -122,6 +122,16 @@ CONFIGS += [
     ("float", -0.7, 50.3, 2, False),
 ]
 
+# limits spelled as floats on integer formats (what JSON like "maxValue": 100.0 gives)
+CONFIGS += [
+    ("uint8", 0.0, 100.0, 1, True),
+    ("uint8", 0.0, 100.0, None, True),
+    ("int", -100.0, 100.0, 1.0, True),
+    ("uint32", 0.0, 4294967295.0, 1, False),
+    ("uint16", 1.0, 65535.0, None, False),
+    ("int", -50.0, None, 2, False),
+]
+
 GARBAGE_CONFIGS = [(None, None, None), (0, 100, 1), (None, None, 1), (0, 100, None)]
 
 # unconvertible inputs: (kind, spelling).  kind "py" spellings are looked up in _PY.
@@ -429,6 +439,13 @@ def _points(fmt, lo, hi, st, quick, seed):
         if signed and not quick:
             add(-v, "magnitude")
     add(0, "zero")
+    # beyond what a double can hold (ints and numeral strings have no such limit): only towards a declared bound, where clamping decides
+    if cfg.hi is not None:
+        for t in (10**309, 10**400, 2**1100 + 1):
+            pts.setdefault(Fraction(t), "huge")
+    if cfg.lo is not None:
+        for t in (10**309, 10**400):
+            pts.setdefault(Fraction(-t), "huge")
     return pts
 
 
@@ -465,6 +482,8 @@ def _renderings(x, tag, quick):
         out.append(("str", text + ("0" if "." in text else ".0")))
     elif quick and tag == "tie":
         out.append(("str", text + ("0" if "." in text else ".0")))
+    if tag == "huge":
+        out.append(("str", _exp_form(text)))
     return out
 
 
